@@ -34,6 +34,8 @@
 #include <unistd.h>
 #include "rkcommon/containers/AlignedVector.h"
 #include "rkcommon/memory/malloc.h"
+#include "rkcommon/utility/Any.h"
+#include <initializer_list>
 
 using rkcommon::containers::aligned_allocator;
 using rkcommon::containers::AlignedVector;
@@ -210,6 +212,7 @@ struct Inst
   void born() { if (!live().insert(this).second) err("constructed twice at one address"); ++constructed(); }
   bool ok() const { return live().count(this) && self == this; }
   explicit Inst(long v) : val(v), self(this) { born(); }
+  Inst(long n, long x) : val(1000 + n * 26 + x), self(this) { born(); }     // direct-initialisation from two arguments
   Inst(const Inst &o) : val(o.val), self(this) { if (!o.ok()) err("copy from an object that was never constructed"); born(); }
   Inst &operator=(const Inst &o)
   {
@@ -227,6 +230,103 @@ struct Inst
   static Inst enc(long v) { return Inst(v); }
   long dec() const { return ok() ? val : -1; }
   bool operator==(const Inst &o) const { return val == o.val; }
+};
+
+// an element type with an initializer_list constructor that accepts the type itself: Node{n} is NOT a copy of n but a
+// node with the one child n.  A copy must preserve the depth.
+struct Node
+{
+  std::vector<Node> kids;
+  int v;
+  Node(int x) : v(x) {}
+  Node(std::initializer_list<Node> l) : kids(l), v(-7) {}
+  static Node wrap(const Node &n) { Node w(-7); w.kids.push_back(n); return w; }
+  static Node enc(long x) { Node n((int)x); for (long d = 0; d < x % 3; ++d) n = wrap(n); return n; }
+  long dec() const
+  {
+    long depth = 0; const Node *n = this;
+    while (n->v == -7 && n->kids.size() == 1) { n = &n->kids[0]; ++depth; }
+    return (n->kids.empty() && n->v >= 0 && n->v % 3 == depth) ? n->v : -1;
+  }
+  bool operator==(const Node &o) const { return v == o.v && kids == o.kids; }
+};
+
+// ---- element traits: value <-> element, equality, and the emplace operations (construction from constructor ARGUMENTS:
+// direct-initialisation T(args...), which is what std::allocator_traits does for an allocator without a matching construct)
+template <typename T>
+struct Tr          // element types defined in this file: enc/dec/== are members; emplace with the one argument enc(x)
+{
+  static T enc(long v) { return T::enc(v); }
+  static long dec(const T &e) { return e.dec(); }
+  static bool eq(const T &a, const T &b) { return a == b; }
+  template <typename V> static void eb(V &v, long, long x) { v.emplace_back(T::enc(x)); }
+  template <typename V> static void em(V &v, size_t pos, long, long x) { v.emplace(v.begin() + pos, T::enc(x)); }
+};
+template <>
+struct Tr<Inst>    // two-argument constructor
+{
+  static Inst enc(long v) { return Inst(v); }
+  static long dec(const Inst &e) { return e.dec(); }
+  static bool eq(const Inst &a, const Inst &b) { return a == b; }
+  template <typename V> static void eb(V &v, long n, long x) { v.emplace_back(n, x); }
+  template <typename V> static void em(V &v, size_t pos, long n, long x) { v.emplace(v.begin() + pos, n, x); }
+};
+template <>
+struct Tr<std::string>      // the element type IS std::string; emplace with (count, char)
+{
+  static std::string enc(long v) { return SElem::enc(v).s; }
+  static long dec(const std::string &s)
+  {
+    if (s.find('#') != std::string::npos) { SElem e; e.s = s; return e.dec(); }
+    if (s.empty()) return -1;
+    for (char c : s) if (c != s[0] || c < 'a' || c > 'z') return -1;
+    return 1000 + (long)s.size() * 26 + (s[0] - 'a');
+  }
+  static bool eq(const std::string &a, const std::string &b) { return a == b; }
+  template <typename V> static void eb(V &v, long n, long x) { v.emplace_back((size_t)n, (char)('a' + x)); }
+  template <typename V> static void em(V &v, size_t pos, long n, long x) { v.emplace(v.begin() + pos, (size_t)n, (char)('a' + x)); }
+};
+template <>
+struct Tr<std::vector<int> >   // the element type IS std::vector<int>; emplace with (count, value)
+{
+  static std::vector<int> enc(long v) { return VElem::enc(v).d; }
+  static long dec(const std::vector<int> &d)
+  {
+    if (d.size() >= 2 && d[0] == d[1]) {
+      for (int e : d) if (e != d[0]) return -1;
+      return 1000 + (long)d.size() * 26 + d[0];
+    }
+    VElem e; e.d = d; return e.dec();
+  }
+  static bool eq(const std::vector<int> &a, const std::vector<int> &b) { return a == b; }
+  template <typename V> static void eb(V &v, long n, long x) { v.emplace_back((size_t)n, (int)x); }
+  template <typename V> static void em(V &v, size_t pos, long n, long x) { v.emplace(v.begin() + pos, (size_t)n, (int)x); }
+};
+typedef std::vector<rkcommon::utility::Any> AnyVec;
+template <>
+struct Tr<AnyVec>             // std::vector<Any>: Any is constructible from anything, also from a std::vector<Any>
+{
+  static AnyVec enc(long v) { AnyVec a; for (long i = 0; i < 1 + v % 3; ++i) a.push_back(rkcommon::utility::Any((int)(v * (i + 1)))); return a; }
+  static long dec(const AnyVec &a)
+  {
+    if (a.empty() || !a[0].valid() || !a[0].is<int>()) return -1;
+    long v = a[0].get<int>();
+    if (a.size() != (size_t)(1 + v % 3)) return -1;
+    for (size_t i = 0; i < a.size(); ++i) if (!a[i].is<int>() || a[i].get<int>() != (int)(v * (long)(i + 1))) return -1;
+    return v;
+  }
+  static bool eq(const AnyVec &a, const AnyVec &b)
+  {
+    if (a.size() != b.size()) return false;
+    for (size_t i = 0; i < a.size(); ++i) {
+      if (a[i].is<int>() != b[i].is<int>()) return false;
+      if (a[i].is<int>() && a[i].get<int>() != b[i].get<int>()) return false;
+      if (!a[i].is<int>()) return false;
+    }
+    return true;
+  }
+  template <typename V> static void eb(V &v, long, long x) { v.emplace_back(enc(x)); }
+  template <typename V> static void em(V &v, size_t pos, long, long x) { v.emplace(v.begin() + pos, enc(x)); }
 };
 
 // ------------------------------------------------------------------ T: the typed overload alignedMalloc<T>(n, align)
@@ -475,11 +575,13 @@ static std::string runVT(long fail, const std::vector<std::string> &ops)
       std::vector<T> &t = onb ? tb : ta;
       std::string res = "ok";
       try {
-        if (f[0] == "pb") { v.push_back(T::enc(i64(f[2]))); t.push_back(T::enc(i64(f[2]))); }
-        else if (f[0] == "rs") { v.resize((size_t)u64(f[2]), T::enc(i64(f[3]))); t.resize((size_t)u64(f[2]), T::enc(i64(f[3]))); }
+        if (f[0] == "pb") { v.push_back(Tr<T>::enc(i64(f[2]))); t.push_back(Tr<T>::enc(i64(f[2]))); }
+        else if (f[0] == "eb") { Tr<T>::eb(v, i64(f[2]), i64(f[3])); Tr<T>::eb(t, i64(f[2]), i64(f[3])); }
+        else if (f[0] == "em") { size_t pos = (size_t)u64(f[2]) % (v.size() + 1); Tr<T>::em(v, pos, i64(f[3]), i64(f[4])); Tr<T>::em(t, pos, i64(f[3]), i64(f[4])); }
+        else if (f[0] == "rs") { v.resize((size_t)u64(f[2]), Tr<T>::enc(i64(f[3]))); t.resize((size_t)u64(f[2]), Tr<T>::enc(i64(f[3]))); }
         else if (f[0] == "rv") { v.reserve((size_t)u64(f[2])); }
         else if (f[0] == "sh") { v.shrink_to_fit(); }
-        else if (f[0] == "as") { v.assign((size_t)u64(f[2]), T::enc(i64(f[3]))); t.assign((size_t)u64(f[2]), T::enc(i64(f[3]))); }
+        else if (f[0] == "as") { v.assign((size_t)u64(f[2]), Tr<T>::enc(i64(f[3]))); t.assign((size_t)u64(f[2]), Tr<T>::enc(i64(f[3]))); }
         else if (f[0] == "cl") { v.clear(); t.clear(); }
         else if (f[0] == "sw") { va.swap(vb); ta.swap(tb); }
         else res = "badop";
@@ -491,14 +593,14 @@ static std::string runVT(long fail, const std::vector<std::string> &ops)
         AlignedVector<T> &x = w ? vb : va;
         std::vector<T> &y = w ? tb : ta;
         out << "|" << (w ? "b=" : "a=") << addr(x.data()) << "," << x.size() << "," << x.capacity() << ",[";
-        for (size_t i = 0; i < x.size(); ++i) out << (i ? " " : "") << x[i].dec();
+        for (size_t i = 0; i < x.size(); ++i) out << (i ? " " : "") << Tr<T>::dec(x[i]);
         out << "]";
         // the property, evaluated on the implementation's own state
         if (x.capacity() != 0 && (uintptr_t)x.data() % 64 != 0) out << "!MISALIGNED";
         if (x.capacity() != 0 && !rkcommon::memory::isAligned(x.data())) out << "!ISALIGNED";
         if (x.capacity() == 0 && x.data() != nullptr) out << "!NONNULL-EMPTY";
         bool same = x.size() == y.size();
-        for (size_t i = 0; same && i < x.size(); ++i) same = x[i] == y[i];
+        for (size_t i = 0; same && i < x.size(); ++i) same = Tr<T>::eq(x[i], y[i]);
         if (!same) out << "!TWIN";
       }
 #ifdef C14_SPY
@@ -532,6 +634,10 @@ static std::string dispatchW(const std::string &tag, long fail, const std::vecto
   if (tag == "s") { if (sizeof(SElem) != 32) pre = "!SIZEOF "; return pre + runVT<SElem>(fail, ops); }
   if (tag == "v") { if (sizeof(VElem) != 24) pre = "!SIZEOF "; return pre + runVT<VElem>(fail, ops); }
   if (tag == "i") { if (sizeof(Inst) != 16) pre = "!SIZEOF "; return pre + runVT<Inst>(fail, ops); }
+  if (tag == "n") { if (sizeof(Node) != 32) pre = "!SIZEOF "; return pre + runVT<Node>(fail, ops); }
+  if (tag == "S") { if (sizeof(std::string) != 32) pre = "!SIZEOF "; return pre + runVT<std::string>(fail, ops); }
+  if (tag == "I") { if (sizeof(std::vector<int>) != 24) pre = "!SIZEOF "; return pre + runVT<std::vector<int> >(fail, ops); }
+  if (tag == "y") { if (sizeof(AnyVec) != 24) pre = "!SIZEOF "; return pre + runVT<AnyVec>(fail, ops); }
   return "bad-type";
 }
 
